@@ -221,6 +221,27 @@ theorem chunksAux_length {α} (n : Nat) (hn : 0 < n) (xs cur : List α) (hc : cu
     · rename_i hlt
       exact ih (cur ++ [x]) (by simp; omega)
 
+/-! ### the TCP reader thread -/
+
+theorem tcpReader_eq (dec : Bytes → Str) (f : Framer) (reads : List (Option Bytes)) (hf : nl ∉ f.buffer) :
+    tcpReader dec f reads = dataReceived dec f (readBytes reads) := by
+  induction reads generalizing f with
+  | nil => simp [tcpReader, readBytes, dataReceived_eq, segments_noNl _ hf]
+  | cons r rs ih =>
+    cases r with
+    | none => simpa [tcpReader, readBytes] using ih f hf
+    | some d =>
+      by_cases hd : d.isEmpty = true
+      · have : d = [] := by simpa using hd
+        subst this
+        simpa [tcpReader, readBytes] using ih f hf
+      · have hb := dataReceived_buffer_noNl dec f d
+        simp only [tcpReader, hd, readBytes, Bool.false_eq_true, if_false]
+        rw [ih _ hb]
+        simp only [dataReceived_eq]
+        rw [← List.append_assoc, segments_append (f.buffer ++ d) (readBytes rs)]
+        simp
+
 /-! ### connection events -/
 
 theorem connStep_buffer_noNl (keep : Bool) (dec : Bytes → Str) (f : Framer) (e : ConnEv)
